@@ -771,8 +771,14 @@ def c03(tier):
     # independent producer with every per-entry freedom; CPython as a second producer
     n = 600 if tier == "quick" else 6000
     scs = []
-    for i in range(n):
-        s, v = gen_reader.scenario("p%05d" % i, gen_reader.rand_archive(rnd))
+    descs = [gen_reader.rand_archive(rnd) for _ in range(n)]
+    # zstd entries: one or several frames per payload, skippable frames in between (multi-frame streams are part of the format)
+    descs += [{"entries": [{"name": b"zf-%d-%d" % (k, f), "method": 93, "data": gen_reader.payload(rnd) or b"z", "zframes": f, "zskip": bool(k % 2)} for f in (1, 2, 3)]}
+              for k in range(4)]
+    gen_reader.resolve_zstd(descs, vlib.BIN)
+    rep.notes["zstd_entries_from_independent_producer"] = sum(1 for d in descs for e in d["entries"] if e.get("method") == 93)
+    for i, d in enumerate(descs):
+        s, v = gen_reader.scenario("p%05d" % i, d)
         if i % 3 == 0:      # the source returns short reads: nothing the reader reports (entries, comment, offsets) may depend on it
             s["under"] = rnd.choice([{"max": 1}, {"max": 3}, {"max": 7}, {"max": 100}, {"list": [1, 5, 2]}, {"list": [4096, 1]}])
         scs.append(s)
